@@ -105,6 +105,7 @@ type interpreter struct {
 	syncObjs map[*value]*syncObj
 	initing  map[*ssa.Package]bool
 	nowTick  int64
+	bypass   *ssa.Function // call the real body of this function once, not its intrinsic
 	twinLabel string
 	baseMapOrder int
 	atomicAdversary func(p *value)
@@ -561,7 +562,9 @@ func callSSA(i *interpreter, caller *frame, callpos token.Pos, fn *ssa.Function,
 			name = fn.String()
 			i.fnNames[fn] = name
 		}
-		if ext := externals[name]; ext != nil {
+		if i.bypass == fn {
+			i.bypass = nil
+		} else if ext := externals[name]; ext != nil {
 			if i.mode&EnableTracing != 0 {
 				fmt.Fprintln(os.Stderr, "\t(external)")
 			}
